@@ -103,11 +103,18 @@ type Shape struct {
 	IndexMap bool // sub-allocations carry index maps
 	Big      bool // balances up to 2^200 instead of small ones
 	Zeros    bool // some balances are zero
+	Huge     bool // some balances sit at the 128-byte limit (sums need a carry word)
 }
 
 // RandShape draws a shape (swarm style: most are small).
 func RandShape(r *kernel.Rand, parts int) Shape {
 	s := Shape{Parts: parts, Assets: 1 + r.Weighted([]int{6, 3, 1}), Zeros: r.Bool(0.3), Big: r.Bool(0.15)}
+	if kernel.NewRand(kernel.Derive(r.Uint64(), "huge")).Bool(0.06) {
+		s.Huge = true
+		if s.Assets < 2 {
+			s.Assets = 2
+		}
+	}
 	if r.Bool(0.35) {
 		s.Locked = r.Range(1, 3)
 		s.IndexMap = r.Bool(0.5)
@@ -119,6 +126,11 @@ func RandShape(r *kernel.Rand, parts int) Shape {
 func Amount(r *kernel.Rand, sh Shape) *big.Int {
 	if sh.Zeros && r.Bool(0.3) {
 		return new(big.Int)
+	}
+	if sh.Huge && r.Bool(0.6) {
+		// at the documented size limit of a balance (128 bytes): all ones, minus a little
+		v := new(big.Int).Lsh(big.NewInt(1), 1024)
+		return v.Sub(v, big.NewInt(int64(r.Range(1, 4))))
 	}
 	if sh.Big {
 		return new(big.Int).SetBytes(r.Bytes(r.Range(1, 25)))
@@ -237,6 +249,27 @@ func CloneAlloc(a channel.Allocation) channel.Allocation {
 // library's Clone methods).
 func CloneState(s *channel.State) *channel.State { return cloneState(s) }
 
+// BalanceOverLimit reports whether some balance needs more than 128 bytes.
+func BalanceOverLimit(a *channel.Allocation) bool { return overLimit(a) }
+
+func overLimit(a *channel.Allocation) bool {
+	for _, row := range a.Balances {
+		for _, b := range row {
+			if b != nil && b.BitLen() > 1024 {
+				return true
+			}
+		}
+	}
+	for _, l := range a.Locked {
+		for _, b := range l.Bals {
+			if b != nil && b.BitLen() > 1024 {
+				return true
+			}
+		}
+	}
+	return false
+}
+
 // ValidSuccessor derives a valid successor of cur for the given app kind.
 // final asks for a final state.
 func ValidSuccessor(r *kernel.Rand, cur *channel.State, n int, appKind int, final bool) Succ {
@@ -291,6 +324,13 @@ func ValidSuccessor(r *kernel.Rand, cur *channel.State, n int, appKind int, fina
 				s.Balances[i][b].Add(s.Balances[i][b], amt)
 			}
 		}
+	}
+	if overLimit(&s.Allocation) {
+		// a balance would no longer fit the 128 bytes of its encoding (possible
+		// only with amounts at the limit): only the version is advanced
+		s = cloneState(cur)
+		s.Version = cur.Version + 1
+		s.IsFinal = final
 	}
 	return Succ{State: s, Actor: actor, Valid: true}
 }
